@@ -246,7 +246,9 @@ func (conn *Conn) send(call *Call) {
 		// Only the path that removes the call from the pending table may
 		// complete it: the reader may already have done so.
 		registered := isStreaming || conn.pending[seq] == call
-		if registered {
+		if registered && !isStreaming {
+			// (a stream message is not registered: the entry under its sequence
+			// number is the stream itself, which has to keep receiving)
 			delete(conn.pending, seq)
 			if call.upgrade.Stream == openStream {
 				delete(conn.streams, seq)
